@@ -32,4 +32,23 @@ pub use embedded_cli_macros::{Command, CommandGroup};
 #[path = "private/mod.rs"]
 pub mod __private;
 
+/// Verification hooks (feature `verif-hooks`): re-exports of internal modules
+/// so an external harness can drive them directly. Not public API.
+#[cfg(feature = "verif-hooks")]
+#[doc(hidden)]
+pub mod __verif {
+    pub use crate::editor::Editor;
+    #[cfg(feature = "history")]
+    pub use crate::history::History;
+    pub use crate::input::{ControlInput, Input, InputGenerator};
+    pub use crate::token::{Tokens, TokensIter};
+    pub use crate::utf8::Utf8Accum;
+    pub mod utils {
+        pub use crate::utils::{
+            char_byte_index, char_count, char_pop_front, common_prefix_len, encode_utf8,
+            trim_start,
+        };
+    }
+}
+
 //TODO: organize pub uses better
